@@ -407,6 +407,9 @@ def run_loop(eng, node, st, head, body_prefix=None, extra_havoc=(), qual_ord=Non
         raise Unsupported("loop #%d of %s has no invariant in the sidecar" % (k, q))
     pre = st
     env_entry = dict(st.env)
+    for gname, gexpr in spec.ghost_init:
+        st.env[gname] = eng.spec_value(gexpr, st)
+    extra_havoc = tuple(extra_havoc) + tuple(g for g, _ in spec.ghost_init)
     # 1. invariant holds on entry
     for i, inv in enumerate(spec.inv):
         g = eng.spec_eval(inv, st, env={"$loop_pre": None} and None)
@@ -417,6 +420,9 @@ def run_loop(eng, node, st, head, body_prefix=None, extra_havoc=(), qual_ord=Non
     for n in names:
         if n in h.env:
             havoc_local(eng, h, n)
+    for n in names:
+        if n.startswith("$i") and n in h.env:
+            h.env["_i"] = h.env[n]          # _i is the spec-visible name of the loop index
     calls.havoc_paths(eng, spec.modifies, h.env, h)
     # the allocation counter may have grown
     grown = S.fresh("nalloc_loop", z3.IntSort())
@@ -435,13 +441,19 @@ def run_loop(eng, node, st, head, body_prefix=None, extra_havoc=(), qual_ord=Non
         s_out = s.fork().assume(z3.Not(c))
         if eng.feasible(s_in):
             body_outs = []
+
+            def ghost_pre(sx):
+                for gname, gexpr in spec.ghost_pre:
+                    sx.env[gname] = eng.spec_value(gexpr, sx)
             if body_prefix is not None:
                 for s1, ctl in body_prefix(s_in):
                     if ctl[0] == "next":
+                        ghost_pre(s1)
                         body_outs += exec_block(eng, node.body, s1)
                     else:
                         body_outs.append((s1, ctl))
             else:
+                ghost_pre(s_in)
                 body_outs = exec_block(eng, node.body, s_in)
             for s2, ctl in body_outs:
                 if ctl[0] in ("next", "continue"):
@@ -458,6 +470,10 @@ def run_loop(eng, node, st, head, body_prefix=None, extra_havoc=(), qual_ord=Non
                 else:
                     outs.append((s2, ctl))
         if eng.feasible(s_out):
+            for i, cl in enumerate(spec.post):
+                g = eng.spec_eval(cl, s_out)
+                eng.oblige("loop-post.%s#%d.%d" % (q, k, i), "loop", s_out, g)
+                s_out.assume(g)
             if node.orelse:
                 outs += exec_block(eng, node.orelse, s_out)
             else:
@@ -570,34 +586,70 @@ def x_For(eng, node, st):
             outs.append((s, ("raise", seq)))
             continue
         if seq.ty.kind == "optseq":
-            # iterating None raises TypeError
-            has = seq.items[0]
-            res = eng.implicit(s, "TypeError", z3.Not(has), lambda s2: [(s2, SV(SEQ(seq.ty.elem), seq.t, const="fresh"))])
-            for s2, v in res:
-                if isinstance(v, Raise):
-                    outs.append((s2, ("raise", v)))
-                else:
-                    outs += for_over_seq(eng, node, s2, v, idx)
+            outs += for_live(eng, node, s, idx)
             continue
         if seq.ty.kind == "emptylist":
             outs.append((s, NEXT))
             continue
         if seq.ty.kind != "seq":
             raise Unsupported("for over %r" % (seq.ty,))
-        if seq.const != "fresh" and seq.const != ("view",) and not eng.lemma_mode:
-            # iterating a live container that the body might mutate
-            seq = SV(seq.ty, seq.t, const=("live",))
+        if seq.const != "fresh" and not eng.lemma_mode:
+            # iterating a live container (list held in the heap / dict view) that the body might
+            # mutate: python's list iterator re-reads the list at every step
+            outs += for_live(eng, node, s, idx)
+            continue
         outs += for_over_seq(eng, node, s, seq, idx)
     return outs
+
+
+def for_live(eng, node, s, idx):
+    s.env[idx] = SV(INT, z3.IntVal(0))
+    s.env["_i"] = s.env[idx]
+    if "_seq" not in s.env:
+        # initial value of the iterated container (spec-visible as _seq)
+        for h2, seqv in eng.ev(node.iter, s.fork()):
+            if not isinstance(seqv, Raise) and seqv.ty.kind in ("seq", "optseq"):
+                s.env["_seq"] = SV(SEQ(seqv.ty.elem), seqv.t)
+                break
+
+    def head(h):
+        res = []
+        for h2, seqv in eng.ev(node.iter, h):
+            if isinstance(seqv, Raise):
+                res.append((h2, seqv))
+                continue
+            if seqv.ty.kind == "optseq":
+                has = seqv.items[0]
+                hn = h2.fork().assume(z3.Not(has))
+                res.append((hn, Raise("TypeError", origin="implicit", site="iterate None")))
+                h2 = h2.assume(has)
+                seqv = SV(SEQ(seqv.ty.elem), seqv.t)
+            if seqv.ty.kind != "seq":
+                raise Unsupported("live iteration over %r" % (seqv.ty,))
+            h2.env["_seq"] = seqv
+            res.append((h2, h2.env[idx].t < z3.Length(seqv.t)))
+        return res
+
+    def prefix(h):
+        i = h.env[idx]
+        e = eng.seq_elem(h, h.env["_seq"], i.t)
+        h.env[idx] = SV(INT, i.t + 1)
+        h.env["_i"] = i
+        return assign_target(eng, node.target, e, h)
+
+    def step(h, n):
+        h.env["_i"] = h.env[idx]
+    eng.loop_step = step
+    try:
+        return run_loop(eng, node, s, head, prefix, extra_havoc=(idx, "_i", "_seq"))
+    finally:
+        eng.loop_step = None
 
 
 def for_over_seq(eng, node, s, seq, idx):
     s.env[idx] = SV(INT, z3.IntVal(0))
     s.env["_i"] = s.env[idx]
     s.env["_seq"] = seq
-    if seq.const == ("view",) or seq.const == ("live",):
-        raise Unsupported("iteration over a live container view (dict.keys()/list attribute): "
-                          "python semantics under mutation are not modelled")
 
     def head(h):
         return [(h, h.env[idx].t < z3.Length(seq.t))]
